@@ -576,7 +576,7 @@ func main() {
 		t.allCutsSparse(d, []int{len(d.data), len(d.data) - 1, 1100, 1000, 990})
 	}
 
-	nDocs := e.Pick(30, 400)
+	nDocs := e.Pick(24, 400)
 	for i := 0; i < nDocs; i++ {
 		d := g.randomDoc()
 		t.allCuts(d)
